@@ -30,63 +30,65 @@ CONSTANTS Sids            \* sequence ids (initial domain of B; the trace specs 
 
 VARIABLES
     mode,      \* "policy" | "flows"
-    A,         \* configured attempts
+    A,         \* configured attempts (of the only / of every retry logic)
+    AF,        \* [key -> configured attempts of the retry logic the key belongs to]; a key is a sequence id or, with several
+               \* Retry processors in one engine, "<flow>/<sequence id>": every processor bounds its own retries
     ranges,    \* retry conditions: sequence of <<from, to>> status ranges
     B,         \* [Sids -> SUBSET 0..Bud] admissible remaining budgets (0 = nothing left / no live call)
     cnt,       \* [Sids -> Nat] retries asked since the sequence was last cleared (for Bounded as a plain invariant)
     last       \* last observable event
 
-pvars == <<mode, A, ranges, B, cnt, last>>
+pvars == <<mode, A, AF, ranges, B, cnt, last>>
 
-Bud == IF A > 0 THEN A ELSE 0
+BudOf(s) == IF AF[s] > 0 THEN AF[s] ELSE 0
 
 InCond(st) == \E i \in 1..Len(ranges) : ranges[i][1] <= st /\ st <= ranges[i][2]
 
 \* ---- policy mode: a call starts with new = TRUE; 0 = no live call (never started, exhausted, ended, forgotten)
 \* budgets a response may be served from: a new call starts afresh, or - if a call is still live - may continue it
-Eff(b, new) == IF new THEN {Bud} \cup (IF b >= 1 THEN {b} ELSE {}) ELSE {b}
+Eff(b, new, bud) == IF new THEN {bud} \cup (IF b >= 1 THEN {b} ELSE {}) ELSE {b}
 
-PolicyNext(Bs, cond, new, out) ==
+PolicyNext(Bs, cond, new, out, bud) ==
     IF ~cond THEN (IF out = "noop" THEN Bs \cup {0} ELSE {})
-    ELSE LET E == UNION {Eff(b, new) : b \in Bs} IN
+    ELSE LET E == UNION {Eff(b, new, bud) : b \in Bs} IN
          IF out = "retry" THEN {e - 1 : e \in {x \in E : x >= 1}}
          ELSE IF out = "noop" THEN (IF 0 \in E THEN {0} ELSE {})
          ELSE {}
 
 \* ---- flows mode: no notion of a new call; 0 = budget used up, failure not yet reported
-FlowsNext(Bs, cond, out) ==
-    IF ~cond THEN (IF out = "none" THEN {x \in 0..Bud : \E b \in Bs : x >= b} ELSE {})
+FlowsNext(Bs, cond, out, bud) ==
+    IF ~cond THEN (IF out = "none" THEN {x \in 0..bud : \E b \in Bs : x >= b} ELSE {})
     ELSE IF out = "retry" THEN {b - 1 : b \in {x \in Bs : x >= 1}}
-    ELSE IF out = "failed" THEN (IF 0 \in Bs THEN {Bud} ELSE {})
+    ELSE IF out = "failed" THEN (IF 0 \in Bs THEN {bud} ELSE {})
     ELSE {}
 
-StepB(Bs, cond, new, out) ==
-    IF mode = "policy" THEN PolicyNext(Bs, cond, new, out) ELSE FlowsNext(Bs, cond, out)
+StepB(Bs, cond, new, out, bud) ==
+    IF mode = "policy" THEN PolicyNext(Bs, cond, new, out, bud) ELSE FlowsNext(Bs, cond, out, bud)
 
 Outs == IF mode = "policy" THEN {"retry", "noop"} ELSE {"retry", "failed", "none"}
 
 \* never seen: policy mode answers a non-new response of an unknown sequence with "noop"; an
 \* implementation that treats it as the start of a call is equally within the statement
-InitB == IF mode = "policy" THEN {0, Bud} ELSE {Bud}
+InitB(s) == IF mode = "policy" THEN {0, BudOf(s)} ELSE {BudOf(s)}
 
 \* observation of one response (no acceptance test: used by the monitor composed with the I spec)
 ObserveResp(s, st, new, out) ==
-    /\ B' = [B EXCEPT ![s] = StepB(B[s], InCond(st), new, out)]
+    /\ B' = [B EXCEPT ![s] = StepB(B[s], InCond(st), new, out, BudOf(s))]
     /\ cnt' = [cnt EXCEPT ![s] = IF out = "retry"
                                  THEN (IF mode = "policy" /\ new THEN 0 ELSE cnt[s]) + 1
                                  ELSE 0]
     /\ last' = [ev |-> "resp", s |-> s, st |-> st, new |-> new, out |-> out]
-    /\ UNCHANGED <<mode, A, ranges>>
+    /\ UNCHANGED <<mode, A, AF, ranges>>
 
 Resp(s, st, new, out) ==
-    /\ StepB(B[s], InCond(st), new, out) # {}
+    /\ StepB(B[s], InCond(st), new, out, BudOf(s)) # {}
     /\ ObserveResp(s, st, new, out)
 
 Adv(d) ==
-    /\ B' = [s \in DOMAIN B |-> B[s] \cup {IF mode = "policy" THEN 0 ELSE Bud}]
+    /\ B' = [s \in DOMAIN B |-> B[s] \cup {IF mode = "policy" THEN 0 ELSE BudOf(s)}]
     /\ cnt' = [s \in DOMAIN B |-> 0]
     /\ last' = [ev |-> "adv", d |-> d]
-    /\ UNCHANGED <<mode, A, ranges>>
+    /\ UNCHANGED <<mode, A, AF, ranges>>
 
 -------------------------------------------------------------------------------
 \* stand-alone behaviours of P (model checking of P itself, generation)
@@ -95,7 +97,8 @@ CONSTANTS Modes, AttemptsSet, RangesC, Statuses, Steps
 PInit ==
     /\ mode \in Modes /\ A \in AttemptsSet /\ ranges \in RangesC
     /\ (mode = "flows" => Len(ranges) = 1)        \* one Filter(status_code_range) in front of the Retry processor
-    /\ B = [s \in Sids |-> InitB]
+    /\ AF = [s \in Sids |-> A]
+    /\ B = [s \in Sids |-> InitB(s)]
     /\ cnt = [s \in Sids |-> 0]
     /\ last = [ev |-> "init"]
 
@@ -110,7 +113,7 @@ Spec == PInit /\ [][PNext]_pvars
 \* also evaluated on every recorded trace and on the implementation-shaped model)
 Accepted == \A s \in DOMAIN B : B[s] # {}
 
-Bounded == \A s \in DOMAIN B : cnt[s] <= Bud
+Bounded == \A s \in DOMAIN B : cnt[s] <= BudOf(s)
 
 NoRetryOutside == [][(last'.ev = "resp" /\ ~InCond(last'.st)) => last'.out # "retry"]_pvars
 
@@ -118,7 +121,7 @@ Isolation == [][\A t \in DOMAIN B : (last'.ev = "resp" /\ last'.s # t) => (B'[t]
 
 \* after a reported failure the next response inside the conditions (of a new call) is retried
 Forget == [][\A s \in DOMAIN B :
-               (last'.ev = "resp" /\ last'.s = s /\ InCond(last'.st) /\ Bud >= 1 /\ B[s] = {IF mode = "policy" THEN 0 ELSE Bud}
+               (last'.ev = "resp" /\ last'.s = s /\ InCond(last'.st) /\ BudOf(s) >= 1 /\ B[s] = {IF mode = "policy" THEN 0 ELSE BudOf(s)}
                 /\ (mode = "policy" => last'.new))
                => last'.out = "retry"]_pvars
 ================================================================================
